@@ -593,12 +593,15 @@ class RangeDimension(Dimension):
 
     @ticks.setter
     def ticks(self, ticks):
+        # convert first: ticks that cannot be stored must leave the stored
+        # ticks (and an existing link) as they are
+        ticks = np.ascontiguousarray(ticks, dtype=DataType.Double)
         if np.any(np.diff(ticks) < 0):
             raise ValueError("Ticks are not given in an ascending order.")
         if self.has_link:
             # unlick object and set ticks
             self.remove_link()
-        self._h5group.write_data("ticks", ticks)
+        self._h5group.write_data("ticks", ticks, dtype=DataType.Double)
 
     @property
     def label(self):
